@@ -291,6 +291,10 @@ TimeOf(x) ==
   IN [ok |-> small /\ z >= TM!MinDay /\ z <= TM!MaxDay, frac |-> frac, z |-> z, sod |-> sod, text |-> text]
 UsesFraction(fmt) == \E i \in 1..Len(TM!Items(fmt)) : TM!Items(fmt)[i].k = "spec" /\ TM!Items(fmt)[i].s \in {102, 43, 115}
 SecondsOf(z, sod) == DecAdd(DecMul(DecOfInt(z), DecOfInt(86400)), DecOfInt(sod))
+\* the fraction a parsed text spells; the result goes through a double: milliseconds of times within about two thousand years of the epoch are
+\* exact there (the microsecond count is a multiple of 8 below 2^56) and have at most 15 digits - finer fractions and later times have no meaning here
+FracOf(p) == IF p.frw = 0 THEN Zero ELSE DecNorm(FALSE, [k \in 1..p.frw |-> p.fr[k] - 48], -p.frw)
+FracExact(p) == p.frw = 0 \/ (p.frw = 3 /\ p.z > -700000 /\ p.z < 800000)
 \* the AST of a pattern text, if the context brings one (c.re: a sequence of [p |-> text, ast |-> AST of Regex.tla])
 ReOf(c, pat) == IF "re" \in DOMAIN c /\ \E k \in 1..Len(c.re) : c.re[k].p = pat
                 THEN c.re[CHOOSE k \in 1..Len(c.re) : c.re[k].p = pat].ast ELSE [r |-> "unknown"]
@@ -382,11 +386,15 @@ EvalCall(f, args, c) ==
                                trailing == first.ok /\ first.p <= Len(bytes) /\ bytes[first.p] \in {32, 9, 10, 13} /\ R!SkipWs(bytes, first.p) <= Len(bytes) IN
                            IF p.ok /\ PlainNumbers(p.v) /\ R!DistinctKeys(p.v) THEN p.v ELSE IF trailing THEN Nothing ELSE Unspec
     \* times: the documentation refers to the strftime page of chrono; Time.tla gives the specifiers a meaning (whole seconds, years 1..9999)
-    [] f = "parse_time" ->
+    \* parse_time reads the date and the time of day as they stand (an offset in the text is read and not applied: the documented example),
+    \* parse_time_with_zone gives the moment: the local time less the offset the text spells (a text without one has no meaning there)
+    [] f \in {"parse_time", "parse_time_with_zone"} ->
          IF IsU(a1) \/ IsU(a2) THEN Unspec ELSE IF a1.t # "str" \/ a2.t # "str" THEN Nothing
-         ELSE LET p == TM!Parse(a1.c, a2.c) IN IF p.ok THEN SecondsOf(p.z, p.sod) ELSE Unspec
-    [] f = "parse_time_with_zone" ->
-         IF IsU(a1) \/ IsU(a2) THEN Unspec ELSE IF a1.t = "str" /\ a2.t = "str" THEN Unspec ELSE Nothing
+         ELSE LET p == TM!Parse(a1.c, a2.c) IN
+              IF ~p.ok \/ ~FracExact(p) \/ (f = "parse_time_with_zone" /\ ~p.zoned) THEN Unspec
+              ELSE LET loc == DecAdd(SecondsOf(p.z, p.sod), FracOf(p)) IN
+                   IF f = "parse_time" THEN loc
+                   ELSE DecSub(loc, DecOfInt((IF p.zn.neg THEN -1 ELSE 1) * (p.zn.h * 3600 + p.zn.m * 60)))
     \* regular expressions: the documentation refers to the regex crate; Regex.tla gives the fragment a meaning (leftmost-first), the AST of a
     \* pattern text comes with the context (c.re) - a pattern without one has no meaning here
     [] f = "match" ->
